@@ -11,7 +11,10 @@ use std::sync::atomic::{AtomicBool, AtomicU64, Ordering};
 use std::sync::{Arc, Mutex};
 use std::time::Instant;
 
-pub const VERIF_DIR: &str = "/verif";
+/// output / known-findings directory (the directory holding the `check` script)
+pub fn verif_dir() -> String {
+    std::env::var("WIRESIM_VERIF_DIR").unwrap_or_else(|_| "/verif".to_string())
+}
 
 #[derive(Clone, Copy, PartialEq, Eq, Debug)]
 pub enum Tier {
@@ -70,8 +73,8 @@ pub fn run_batch(prop: Prop, seed: u64, first: u64, runs: u64, threads: usize, k
                         let scn = generate(prop, seed, idx);
                         let sig = format!("hang/{}", scn.world);
                         let rp = Replay { property: prop.id().into(), signature: sig.clone(), detail: format!("run {} did not finish within {} ms", idx, limit_ms), origin: format!("seed={} run={}", seed, idx), scenario: scn };
-                        let path = format!("{}/replays/{}-hang-{}.replay", VERIF_DIR, prop.id(), idx);
-                        let _ = std::fs::create_dir_all(format!("{}/replays", VERIF_DIR));
+                        let path = format!("{}/replays/{}-hang-{}.replay", verif_dir(), prop.id(), idx);
+                        let _ = std::fs::create_dir_all(format!("{}/replays", verif_dir()));
                         let _ = std::fs::write(&path, rp.to_text());
                         println!("VIOLATION property={} replay={}", prop.id(), path);
                         println!("  signature {} (watchdog)", sig);
@@ -227,7 +230,7 @@ pub struct Finding {
 }
 
 pub fn load_findings() -> Result<Vec<Finding>, String> {
-    let path = format!("{}/known_findings.json", VERIF_DIR);
+    let path = format!("{}/known_findings.json", verif_dir());
     let text = match std::fs::read_to_string(&path) {
         Ok(t) => t,
         Err(_) => return Ok(Vec::new()),
@@ -300,7 +303,7 @@ pub fn check(o: &CheckOpts) -> i32 {
     let mut new_violations = 0u64;
     let mut known_hits: Vec<String> = Vec::new();
     let mut reported = 0;
-    let _ = std::fs::create_dir_all(format!("{}/replays", VERIF_DIR));
+    let _ = std::fs::create_dir_all(format!("{}/replays", verif_dir()));
     for (sig, (idx, detail)) in st.violations.iter() {
         if reported >= 8 {
             println!("  (further distinct signatures suppressed: {} in total)", st.violations.len());
@@ -321,7 +324,7 @@ pub fn check(o: &CheckOpts) -> i32 {
             origin: format!("VERIF_SEED={} run={} world={} items {}->{} after {} re-executions", o.seed, idx, scn.world, scn.items.len(), min.items.len(), tries),
             scenario: min,
         };
-        let path = format!("{}/replays/{}-{}.replay", VERIF_DIR, prop.id(), sig_file_part(sig));
+        let path = format!("{}/replays/{}-{}.replay", verif_dir(), prop.id(), sig_file_part(sig));
         if let Err(e) = std::fs::write(&path, rp.to_text()) {
             eprintln!("HARNESS-ERROR: cannot write {}: {}", path, e);
             return 2;
@@ -356,8 +359,8 @@ pub fn check(o: &CheckOpts) -> i32 {
     }
 
     let ev = evidence(o, &res, det, new_violations, &known_hits);
-    let path = format!("{}/evidence/{}.json", VERIF_DIR, prop.id());
-    let _ = std::fs::create_dir_all(format!("{}/evidence", VERIF_DIR));
+    let path = format!("{}/evidence/{}.json", verif_dir(), prop.id());
+    let _ = std::fs::create_dir_all(format!("{}/evidence", verif_dir()));
     if let Err(e) = std::fs::write(&path, ev.render()) {
         eprintln!("HARNESS-ERROR: cannot write {}: {}", path, e);
         return 2;
